@@ -167,6 +167,17 @@ def check(facts, rep, tier, cfg):
             k5 += 1
             rep.bad("C12.R5", v["key"].split("/", 1)[1], v["where"], v["msg"])
     rep.floor("C12.R5", "stream-closing cells", k5, 2)
+    # ---- R6 credit taken = frame sent (= C03.R7): credit available stays grants minus frames
+    rep.rule("C12.R6", "credit available = grants - frames sent (= C03.R7): after a successful credit take every path queues a Push before "
+                       "returning - a take that can be followed by a return without a frame (an empty write, an early exit) leaks a unit the "
+                       "peer never grants back, and the writer eventually sleeps although it could proceed")
+    import rules_c03 as _c03r7
+    sub37 = type(rep)(rep.prop, rep.tier, rep.config)
+    _c03r7.check_r7(facts, sub37, crate, _c03r7.credit_take_bodies(facts, crate))
+    for i in sub37.instances:
+        rep.ok("C12.R6", i["key"], i["where"], i["detail"], nontrivial=False)
+    for v in sub37.violations:
+        rep.bad("C12.R6", v["key"].split("/", 1)[1] if v["key"].startswith("C03.") else v["key"], v["where"], v["msg"])
     rep.rule("C12.S7", "who-may: the functions that touch the critical resources behind this property are those of the reference tree (flow table, closed flag, per-stream / datagram / outbound queues, last-pong timestamp, client id maps, shared TLS identity)")
     import whomay
     whomay.check(facts, rep, "C12.S7", "C12")
